@@ -236,7 +236,9 @@ void equalities(Mon& M, Rng& rng)
    const Lexicon& L = lex;
    std::vector<std::string> sp { "C", "C++", "", "Java", "c", "C+", "cdecl", "stdcall", "C++ ", "x", "const", "volatile", "static", "int", "virtual", "inline", "Fortran", "fastcall", "C\0x", "\x01" };
    sp[18] = std::string("C\0x", 3);
-   while (sp.size() < 40) { std::string s; int len = int(rng.below(6)); for (int i = 0; i < len; ++i) s += char(rng.chance(80) ? 'a' + rng.below(4) : rng.below(256)); sp.push_back(s); }
+   for (auto w : basic_specifier_words) if (std::find(sp.begin(), sp.end(), narrow(w)) == sp.end()) sp.push_back(narrow(w));
+   for (auto w : basic_qualifier_words) if (std::find(sp.begin(), sp.end(), narrow(w)) == sp.end()) sp.push_back(narrow(w));
+   while (sp.size() < 48) { std::string s; int len = int(rng.below(6)); for (int i = 0; i < len; ++i) s += char(rng.chance(80) ? 'a' + rng.below(4) : rng.below(256)); sp.push_back(s); }
    struct Val { std::string sp; const Logogram* g; const Linkage* l1; const Linkage* l2; const Calling_convention* c; };
    std::vector<Val> vals;
    std::deque<Linkage> own_l; std::deque<Calling_convention> own_c;
@@ -249,6 +251,13 @@ void equalities(Mon& M, Rng& rng)
       vals.push_back(v);
       own_l.emplace_back(*v.g); own_c.emplace_back(*v.g);          // client-made values over the same logogram
       own_g.emplace_back(v.g->what()); own_gl.emplace_back(own_g.back()); own_gc.emplace_back(own_g.back());
+   }
+   // the library's own basic specifier / qualifier values (what decompose hands out) for the spellings that are basic names
+   std::vector<std::vector<Basic_specifier>> lib_s(sp.size()); std::vector<std::vector<Basic_qualifier>> lib_q(sp.size());
+   for (std::size_t i = 0; i < sp.size(); ++i) {
+      try { for (auto& b : L.decompose(L.specifiers(Basic_specifier { *vals[i].g }))) lib_s[i].push_back(b); } catch (...) { }
+      try { for (auto& b : L.decompose(L.qualifiers(Basic_qualifier { *vals[i].g }))) lib_q[i].push_back(b); } catch (...) { }
+      C.count("library_made_basic_specifiers", (long long)lib_s[i].size()); C.count("library_made_basic_qualifiers", (long long)lib_q[i].size());
    }
    auto check = [&](const char* what, bool e, bool ne, bool same) {
       C.count("equality_pairs");
@@ -273,6 +282,9 @@ void equalities(Mon& M, Rng& rng)
          Basic_qualifier qa { *vals[i].g }, qb { *vals[j].g };
          check("basic_specifier", a == b, a != b, same);
          check("basic_qualifier", qa == qb, qa != qb, same);
+         // library-made against client-made and against library-made, both ways round
+         for (auto& la : lib_s[i]) { check("basic_specifier", la == b, la != b, same); check("basic_specifier", b == la, b != la, same); for (auto& lb : lib_s[j]) check("basic_specifier", la == lb, la != lb, same); }
+         for (auto& la : lib_q[i]) { check("basic_qualifier", la == qb, la != qb, same); check("basic_qualifier", qb == la, qb != la, same); for (auto& lb : lib_q[j]) check("basic_qualifier", la == lb, la != lb, same); }
       }
    // the constants
    check("linkage", L.c_linkage() == *vals[0].l1, L.c_linkage() != *vals[0].l1, true);
@@ -332,7 +344,7 @@ static void body(Ctx& C)
    std::string list = "["; for (auto& k : M.kinds_seen) { if (list.size() > 1) list += ","; list += jstr(k); } C.extra("kinds_and_states", list + "]");
    C.sample(J().s("case", "Block with 3 handlers: try_block() vs handlers().size() > 0; body() vs region().body()").str());
    C.sample(J().s("case", "Linkage(\"C\") == Linkage(get_string(\"C\")) and != Linkage(\"c\")").str());
-   C.need("sequence_checks"); C.need("derived_checks"); C.need("equality_pairs"); C.need("nodes_checked");
+   C.need("sequence_checks"); C.need("derived_checks"); C.need("equality_pairs"); C.need("nodes_checked"); C.need("library_made_basic_specifiers", 18); C.need("library_made_basic_qualifiers", 3);
 }
 
 int main(int argc, char** argv) { return guarded_main(argc, argv, body); }
